@@ -108,7 +108,15 @@ def valid_channel_f(ch):
     return z3.And(*[c for _, c in valid_channel(ch)])
 
 
-PI = z3.Real('PI')   # symbolic positive constant (A-REAL); only PI > 3 is assumed
+from pyvc.core import PI  # noqa: E402  symbolic constant for pi (A-REAL); only 3 < PI < 4 is assumed
+
+
+RMODK = uf("RMODK", R, R, I)
+
+
+def fmt(x):
+    """x mod 2*PI as Python computes `x % (2*np.pi)` under A-REAL: x - 2PI*k, k = RMODK(x, 2PI) the integer quotient"""
+    return x - (2 * PI) * z3.ToReal(RMODK(x, 2 * PI))
 
 
 # ---- _TimeSlot -------------------------------------------------------------
